@@ -14,6 +14,7 @@ HOOK_COMMITS = ["1460123bcc5a44e72392e65465c5bd0c424ce6e9"]  # PrefixFileSet::ve
 
 PROPS["C12"] = dict(
     suites=["c12t", "c12", "c12e"],
+    random_suites=["c12"],
     shards={"c12t": 8, "c12": 4, "c12e": 1},
     lean_modules=["ServlinVerif.Props.C12"],
     audit="Audit/C12.lean",
@@ -46,6 +47,7 @@ PROPS["C12"] = dict(
 
 PROPS["C13"] = dict(
     suites=["c13", "c13e"],
+    random_suites=["c13"],
     shards={"c13": 4, "c13e": 1},
     lean_modules=["ServlinVerif.Props.C13"],
     audit="Audit/C13.lean",
@@ -154,6 +156,7 @@ PROPS["C20"] = dict(
 )
 
 PROPS["C16"] = dict(
+    thorough_seeds=2,
     suites=["c16"],
     lean_modules=["ServlinVerif.Props.C16"],
     audit="Audit/C16.lean",
@@ -351,7 +354,7 @@ PROPS["C15"] = dict(
 
 PROPS["C17"] = dict(
     suites=["c17"],
-    lean_modules=["ServlinVerif.Props.C17"],
+    lean_modules=["ServlinVerif.Props.C17", "ServlinVerif.Props.C17Line"],
     audit="Audit/C17.lean",
     rule="LogEvent::new(level, tags).write_jsonl: every Unicode scalar value below U+3000 as a one-character string plus every 97th BMP / "
          "4099th astral scalar value (thorough: all 1,112,064), boundary scalars (surrogate neighbours, U+2028/9, U+FEFF...), all integer "
@@ -362,13 +365,15 @@ PROPS["C17"] = dict(
     klass=lambda tag, args, obs: "c17:tags=%d" % min(len([x for x in args[1].split(",") if x]), 5),
     explanation="C17_string_roundtrip / C17_no_breakout: for every list of Unicode scalar values the escaped text is read back exactly by the RFC 8259 "
                 "string parser, which stops exactly at the serialiser's closing quote - no value or name can break out, add members or split the "
-                "line. The whole-line statement (member list, numbers, fixed members) is checked by the executable parser on every line the "
-                "implementation produced.",
+                "line. C17_line (Props/C17Line.lean): for every tag list (arbitrary Unicode names and strings, all integers, booleans, null, "
+                "non-finite floats, floats of the shape [-]digits[.digits]) the whole output of write_jsonl is one line with exactly one LF, at the "
+                "end, holding one flat JSON object whose members are time, level, the tags in order with names and values unchanged, time_ns. "
+                "The executable parser is additionally applied to every line the implementation produced.",
     trusted=["Rust Display of integers and finite floats (taken as text; checked to be JSON numbers by the oracle)", "UTF-8 decoding of the line by Lean's String.fromUTF8?"],
     assumptions=["the time member is produced from SystemTime::now() and only checked for shape"],
-    level_text="Proof: the escaping theorem holds for all strings over all 1,112,064 scalar values (by induction, not enumeration). Partial: the "
-               "object-level statement (fixed members, one member per tag in order, numbers) is an executable oracle applied to the "
-               "implementation's lines, not a Lean theorem.",
+    level_text="Proof: the escaping theorem holds for all strings over all 1,112,064 scalar values (by induction, not enumeration). C17_line: the object-level "
+               "statement (fixed members, one member per tag in order, numbers, single line) is a theorem for every tag list; that Rust prints finite "
+               "floats as [-]digits[.digits] is a fact about Rust's formatter and is checked by the suite.",
     level_note="Trusted: Lean kernel; model of write_jsonl/Display impls (modelled, not verified) tied by suite c17 (model and implementation produce "
                "byte-identical lines); JsonParser is my reading of RFC 8259 for flat objects.",
 )
